@@ -124,9 +124,48 @@ func vbrServeScenario(t *testing.T, res *vResult, bi int, sc *vbrScenario) {
 		return map[string]any{"family": "BlockRequests", "par": sc.Par, "fin": sc.Fin, "J": sc.J, "K": sc.K,
 			"steps": []json.RawMessage{step}}
 	}
+	// the service answers requests WHILE the chain grows and re-organises (blocks arrive in id order, so the best chain of
+	// the moment changes as forks overtake each other): a by-number request is answered from the best chain of the moment,
+	// whatever was served before.  The same service then serves the scenario's steps.
+	svc := NewSyncService(WithBlockState(bs))
 	for b := 1; b <= len(sc.Par); b++ {
 		if err := bs.AddBlock(f.Block(b)); err != nil {
 			t.Fatalf("VERIF-INFRA AddBlock %d: %v", b, err)
+		}
+		if b > 12 && b%16 != 0 {
+			continue
+		}
+		bestNow, ok := f.ByHash[bs.BestBlockHash()]
+		if !ok {
+			t.Fatalf("VERIF-INFRA best block unknown to the harness")
+		}
+		var chain []int // best chain of the moment, numbers 1..
+		for x := bestNow; x != 0; x = f.Par[x-1] {
+			chain = append([]int{x}, chain...)
+		}
+		if len(chain) > 128 {
+			chain = chain[:128]
+		}
+		req := &messages.BlockRequestMessage{RequestedData: 1, StartingBlock: *messages.NewFromBlock(uint(1)), Direction: messages.Ascending}
+		var resp *messages.BlockResponseMessage
+		var err error
+		pm, to := vGuard(20*time.Second, func() { resp, err = svc.CreateBlockResponse(peer.ID(fmt.Sprintf("grow-%d-%d", bi, b)), req) })
+		res.Case("Serve-while-growing", fmt.Sprintf("%d|%d", len(chain), b))
+		res.Cmp()
+		var got []int
+		if resp != nil {
+			for _, bd := range resp.BlockData {
+				id, known := f.ByHash[bd.Hash]
+				if !known {
+					id = -1
+				}
+				got = append(got, id)
+			}
+		}
+		if to || pm != "" || err != nil || !vbrSeqEq(got, chain) {
+			res.Fail(bi, 0, "Serve/num-asc/while-chain-grows", "blocks", fmt.Sprint(chain), fmt.Sprintf("%v err=%v panic=%s timeout=%v (after block %d arrived)", got, err, pm, to, b),
+				"C31/Serve/num-asc/while-chain-grows/blocks", hdr)
+			return
 		}
 	}
 	// "exactly the requested fields": receipts are stored for odd blocks, message queues for blocks that are not
@@ -177,7 +216,6 @@ func vbrServeScenario(t *testing.T, res *vResult, bi int, sc *vbrScenario) {
 	if !ok {
 		t.Fatalf("VERIF-INFRA best block unknown to the harness")
 	}
-	svc := NewSyncService(WithBlockState(bs))
 	for si, raw := range sc.Steps {
 		var s vbrStep
 		if err := json.Unmarshal(raw, &s); err != nil {
